@@ -728,12 +728,23 @@ class Cas:
         all_fs = {}
 
         openlist = []
+        queued = set()
+
+        def enqueue(candidates):
+            # Every feature structure enters the open list at most once; identity (not the xmi:id, which may still
+            # be missing or may have been forced onto several feature structures) decides what has been seen
+            for candidate in candidates:
+                if not candidate or id(candidate) in queued:
+                    continue
+                queued.add(id(candidate))
+                openlist.append(candidate)
+
         if seeds is not None:  # Using "is not None" to distinguish empty seeds from not using seeds at all
-            openlist.extend(seeds)
+            enqueue(seeds)
         else:
             for sofa in self.sofas:
                 view = self.get_view(sofa.sofaID)
-                openlist.extend(view.select_all())
+                enqueue(view.select_all())
 
         ts = self.typesystem
         while openlist:
@@ -764,10 +775,7 @@ class Cas:
             # Arrays contents are handled separately - they only have one "virtual" feature: elements
             if t.supertype.name == "uima.cas.ArrayBase":
                 if t.name == "uima.cas.FSArray" and fs.elements:
-                    for ref in fs.elements:
-                        if not ref or ref.xmiID in all_fs:
-                            continue
-                        openlist.append(ref)
+                    enqueue(fs.elements)
                 continue  # After processing any arrays, skip to the next FS in the openlist
 
             # For non-array types, we look at the features - this includes also FSList-types
@@ -791,16 +799,13 @@ class Cas:
                 ):
                     # For inlined FSArrays / FSList, we still need to scan their members
                     if feature.rangeType.name == TYPE_NAME_FS_ARRAY and feature_value.elements:
-                        for ref in feature_value.elements:
-                            if not ref or ref.xmiID in all_fs:
-                                continue
-                            openlist.append(ref)
+                        enqueue(feature_value.elements)
                     elif feature.rangeType.name == TYPE_NAME_FS_LIST and hasattr(feature_value, FEATURE_BASE_NAME_HEAD):
                         v = feature_value
-                        while hasattr(v, FEATURE_BASE_NAME_HEAD):
-                            if not v.head or v.head.xmiID in all_fs:
-                                continue
-                            openlist.append(v.head)
+                        seen_nodes = set()
+                        while hasattr(v, FEATURE_BASE_NAME_HEAD) and id(v) not in seen_nodes:
+                            seen_nodes.add(id(v))
+                            enqueue([v.head])
                             v = v.tail
                     # For primitive arrays / lists, we do not need to handle the elements
                     continue
@@ -810,10 +815,7 @@ class Cas:
                         f"Feature [{feature.domainType.name}:{feature_name}] should point to a [{feature.rangeType.name}] but the feature value is a [{type(feature_value)}] with the value [{feature_value}]"
                     )
 
-                if feature_value.xmiID in all_fs:
-                    continue
-
-                openlist.append(feature_value)
+                enqueue([feature_value])
 
         yield from all_fs.values()
 
